@@ -2,7 +2,7 @@
 with harness/cmd/verifinstr; /repo is only read."""
 import os, subprocess
 
-GROUPS = ["verif_fiat", "verif_swu", "verif_mul", "verif_secec", "verif_btc", "verif_h2c"]
+GROUPS = ["verif_fiat", "verif_swu", "verif_mul", "verif_secec", "verif_btc", "verif_btcparse", "verif_h2c"]
 
 
 def make_overlays(tmp, configs, overlay, ENV, HARNESS, REPO, log):
